@@ -138,6 +138,16 @@ def r02_4(ctx, layers):
             src = pv.operand(t["args"][1])
             if f.dominates(bi, bb) and mentions(src, lambda x: x == ("param", 3)):
                 ok = True
+        if not ok:
+            # the same written as a loop: for route in <updated> { removed.insert(route.id()) }
+            s = Sym(f, copies=True)
+            for lp in for_loops(f, pv):
+                if not mentions(lp.source, lambda x: x == ("param", 3)) or not (f.dominates(lp.exit, bb) and lp.exit != bb or f.dominates(lp.exit, bb)):
+                    continue
+                its = [p for p in lp.iteration_paths(s) if p.end[0] == "stop"]
+                if its and all(any(e[0] == "call" and e[1].endswith("HashSet::insert") and e[2][0] in (("param", 4), ("local", 4)) and mentions(e[2][1], lambda x: x[0] == "call" and x[1].endswith("::id")) for e in p.events) for p in its):
+                    if not any(bb in p.blocks for p in its):
+                        ok = True
         r.ob("changeset:updated-ids-removed", ok, f.site, "ids of `updated` are added to the removal set before batch_remove")
         # updated are inserted before added
         loops = for_loops(f, pv)
